@@ -274,6 +274,41 @@ func init() {
 				}
 				scs = append(scs, sc)
 			}
+			// (8) the caller's own list contains an authentication request (other credentials) — on a fresh client and on an
+			// authenticated one: the connection still starts with the configured credentials, the caller's list follows
+			for j := 0; j < 2; j++ {
+				sc := &scenario{name: "authentication-request-in-the-list", fails: map[int]bool{}}
+				own := rscp.Message{Tag: rscp.RSCP_REQ_AUTHENTICATION, DataType: rscp.Container, Value: []rscp.Message{
+					{Tag: rscp.RSCP_AUTHENTICATION_USER, DataType: rscp.CString, Value: "someone-else"}, {Tag: rscp.RSCP_AUTHENTICATION_PASSWORD, DataType: rscp.CString, Value: "other"}}}
+				for k := 0; k < 3; k++ {
+					c := healthy(k)
+					if k == j {
+						c.reqs = append([]rscp.Message{own}, c.reqs...)
+						// the scripted device tells authentication from user frames by the tag of the first item: it answers this
+						// user frame like an authentication, so both replies are scripted alike
+						c.user = c.auth
+					}
+					sc.calls = append(sc.calls, c)
+				}
+				scs = append(scs, sc)
+			}
+			// (9) large replies (30, 50 and 65 thousand bytes) that the device writes in pieces of 1000 or 3000 bytes, to a
+			// client with the default one-block receive buffer: they arrive, well inside the time-out
+			for _, size := range []int{30000, 50000, 65000} {
+				for _, piece := range []int{1000, 3000} {
+					sc := &scenario{name: fmt.Sprintf("large-reply-%d-in-pieces-of-%d", size, piece), fails: map[int]bool{}, quick: map[int]bool{1: true}}
+					for k := 0; k < 3; k++ {
+						c := healthy(k)
+						if k == 1 {
+							rep := []rscp.Message{{Tag: c.reqs[0].Tag | 1<<23, DataType: rscp.ByteArray, Value: make([]byte, size)}}
+							c.user = frameReply(rep)
+							c.user.beh.kind, c.user.beh.k = "okPieces", piece
+						}
+						sc.calls = append(sc.calls, c)
+					}
+					scs = append(scs, sc)
+				}
+			}
 			// (5) a reply damaged in transit once (one bit of the frame's time stamp, checksum untouched): the call fails
 			// with a checksum error, its request reached the device once, the next call works on a new connection
 			for j := 0; j < 2; j++ {
@@ -341,6 +376,9 @@ func init() {
 							want := "ok " + strings.TrimPrefix(c.user.model, "F ") // the reply scripted for this very call
 							if !strings.HasPrefix(r, want+" @") {
 								addVerdict(&prop, fmt.Sprintf("FAIL C08 no recovery: call %d of scenario %s against a healthy peer gives %s", k, sc.name, trunc(r, 120)))
+								if strings.HasPrefix(sc.name, "large-reply") {
+									addVerdict(&prop, fmt.Sprintf("FAIL C07 a reply delivered completely over TCP (%s) is not returned: %s", sc.name, trunc(r, 100)))
+								}
 								if strings.Contains(r, "undecodable") || strings.HasPrefix(r, "err invalid") {
 									addVerdict(&prop, "FAIL C06 client and peer no longer understand each other on the connection: "+trunc(r, 100))
 								}
